@@ -913,7 +913,76 @@ def layer8() -> typing.List[Case]:
             core_all=True,
         )
     )
+    cases += _version_pair_cases()
     return cases
+
+
+def _version_pair_cases() -> typing.List[Case]:
+    """Several versions of ONE dependency used side by side inside one definition: a struct, a union or a service
+    (one version in the request, the other in the response) whose attributes refer to the same full type name in
+    two different versions - the dependency living in another root namespace or in the owner's own namespace, used
+    as scalar/scalar or mixed with arrays, in both version orders, for major (1.0/2.0) and minor (1.0/1.1) pairs.
+    Every owner is its own header/module; the versions of the dependency do not include each other."""
+    fixed = {
+        "dep/geo/Point.1.0.dsdl": "float32 x\n@sealed\n",
+        "dep/geo/Point.1.1.dsdl": "float32 y\n@sealed\n",
+        "dep/geo/Point.2.0.dsdl": "float64 x\nfloat64 y\n@sealed\n",
+        "reg/v/Pt.1.0.dsdl": "float32 x\n@sealed\n",
+        "reg/v/Pt.1.1.dsdl": "float32 y\n@sealed\n",
+        "reg/v/Pt.2.0.dsdl": "float64 x\nfloat64 y\n@sealed\n",
+    }
+    locations = {"cross_root": "dep.geo.Point", "same_namespace": "reg.v.Pt"}
+    pairs = [("major", "1.0", "2.0"), ("major", "2.0", "1.0"), ("minor", "1.0", "1.1"), ("minor", "1.1", "1.0")]
+    modes = {
+        "scalar_scalar": lambda a, b: [f"{a} p", f"{b} q"],
+        "scalar_scalar_with_arrays": lambda a, b: [f"{a} p", f"{b} q", f"{a}[<=2] pa", f"{b}[2] qa"],
+        "scalar_then_array": lambda a, b: [f"{a} p", f"{b}[<=2] qa"],
+        "array_then_scalar": lambda a, b: [f"{a}[2] pa", f"{b} q"],
+    }
+    core: typing.List[dict] = []
+    rest: typing.List[dict] = []
+    n = 0
+    for loc, base in locations.items():
+        for pk, va, vb in pairs:
+            for mode, mk in modes.items():
+                for owner in ("struct", "union", "service"):
+                    lines = mk(f"{base}.{va}", f"{base}.{vb}")
+                    if owner == "struct":
+                        text = "".join(x + "\n" for x in lines) + "@sealed\n"
+                    elif owner == "union":
+                        text = "@union\n" + "".join(x + "\n" for x in lines) + "@sealed\n"
+                    else:  # first version only in the request, second only in the response
+                        req = [x for x in lines if x.split()[1].startswith("p")]
+                        rsp = [x for x in lines if x.split()[1].startswith("q")]
+                        text = "".join(x + "\n" for x in req) + "@sealed\n---\n" + "".join(x + "\n" for x in rsp) + "@sealed\n"
+                    m = dict(
+                        label=f"two_versions:{owner}:{loc}:{pk}:{va}+{vb}:{mode}",
+                        feature=f"two_versions:{owner}:{loc}:{pk}",
+                        name=f"{va}+{vb}:{mode}",
+                        origin="version_pair",
+                        files={f"reg/v/Own{n}.1.0.dsdl": text},
+                    )
+                    n += 1
+                    in_core = (pk == "major" and mode == "scalar_scalar") or (
+                        owner == "struct" and (va, vb) == ("1.0", "1.1") and mode in ("scalar_scalar", "scalar_scalar_with_arrays")
+                    )
+                    (core if in_core else rest).append(m)
+    out: typing.List[Case] = [
+        dict(id="L8.versions.core", layer="L8", roots=["reg", "dep"], fixed=fixed, skeletons={}, members=core)
+    ]
+    for b in range(0, len(rest), BATCH):
+        out.append(
+            dict(
+                id=f"L8.versions.{b // BATCH}",
+                layer="L8",
+                roots=["reg", "dep"],
+                fixed=fixed,
+                skeletons={},
+                members=rest[b : b + BATCH],
+                quick_core=False,
+            )
+        )
+    return out
 
 
 # ------------------------------------------------------------------------------------------------- the universe
